@@ -13,13 +13,13 @@ ENGINE = {'name': 'mcodec',
  'serves': ['C04', 'C06', 'C14', 'C18'],
  'rule': 'VERIF_PROP selects the family. C18: for each of the 8 exported wire-message types (WireGuard initiation/transport, Winbox auth incl. '
          'FromChunks/ToChunks, RDP TPKT/X.224/NegReq/CorrInfo/Token) byte strings of EVERY length 0..bound+4 (random, and a valid message cut or '
-         'extended to that length), generated well-formed values over the full field ranges (edge values 0,1,max-1,max), single-byte corruptions; '
+         'extended to that length), generated well-formed values over the full field ranges (edge values 0,1,max-1,max), single-byte corruptions, and for every variable-length part (RDPToken.Optional, MessageTransport.Content, the Winbox payload / user name) each terminator/delimiter pattern (CR LF, CR, LF, NUL, =, +r, ., CR LF CR LF, FF, 06) inserted and overwritten at every position followed by 0..3 more bytes, through both FromBytes and ToBytes; '
          'non-trivial = length within a size bound +-2 or a generated value. C04: whole streams, prefixes, self-consistent length headers at every '
          'payload length, CR/LF placements, random bytes, default and filtered configurations, TCP- and UDP-like addresses; allocation measured '
          'with runtime.MemStats around Match. C06: every prefix of valid rdp/winbox streams (with trailing data, mutations, two-chunk winbox '
          'messages), each evaluated twice on fresh connections that count socket reads and are re-read afterwards. C14: per-protocol abstract '
          'messages encoded from the wire definition x every filter configuration x every single-field corruption, verdict compared with the '
-         'reference predicate, plus a sweep of every value 0..255 of each fixed/flag/enum byte of an RDP request (TPKT version/reserved, X.224 code/references/class, negotiation-request type/flags/length/each protocols byte, correlation-info type/flags/length/first identity byte/reserved); non-trivial = input reaches past the first length/magic gate. distinct = distinct case terms.',
+         'reference predicate, RDP cookie hash / custom info / token cookie with each delimiter pattern at every position (correspondence only), plus a sweep of every value 0..255 of each fixed/flag/enum byte of an RDP request (TPKT version/reserved, X.224 code/references/class, negotiation-request type/flags/length/each protocols byte, correlation-info type/flags/length/first identity byte/reserved); non-trivial = input reaches past the first length/magic gate. distinct = distinct case terms.',
  'trusted_base': ['layer4.WrapConnection + MatcherSet.Match give the matcher the preloaded prefix in matching mode (C01 covers the connection)',
                   'runtime.MemStats.TotalAlloc deltas as the allocation measure',
                   'regexp: the engine only configures anchored/unanchored literal patterns (regexp.QuoteMeta), modelled as prefix/suffix/equal/contains'],
